@@ -20,7 +20,7 @@ STAGE_NOTE = ("Trusted: Coq kernel (no axioms; MD5 is a Section variable, collis
               "heap (cache, wait lists, channels hold object ids) and an explicit settle function for the validator/finalize goroutines. Not modelled: real "
               "goroutine interleavings (explored by the concurrent suite), narrowing log-search windows and the 10 s retry timer of isFileReady (the model "
               "looks at the whole log), cleanCache ageing, exporter/dispatcher, power-loss durability.")
-STAGE_SUITE = dict(name="stage", pkg="./stage/", test="TestVerifStage", min_lines=200, timeout_quick=900)
+STAGE_SUITE = dict(name="stage", pkg="./stage/", test="TestVerifStage", min_lines=200, timeout_quick=900, confirm=True)
 
 E2E_RULE = ("e2e: the real client.Broker with the real store.Local, cache.JSON, queue.Tagged, payload.Bin and sent-log against a real stage.Stage + receive log "
             "through an in-process transport that injects faults per request (206 at part i, cut before/after part i, lost answer, receiver unavailable, "
@@ -183,7 +183,7 @@ PROPS = {
     ),
     "C05": dict(
         coq="Properties/C05.v",
-        suites=[dict(STAGE_SUITE, oracles=["logged_twice"], diffs=["finals", "log", "received", "status", "stage-files"])],
+        suites=[dict(STAGE_SUITE, oracles=["logged_twice", "delivered_version_not_recognised", "superseded_version_not_recognised"], diffs=["finals", "log", "received", "status", "stage-files"])],
         rule=STAGE_RULE,
         level_text=("Proof (step level): a finalisation appends at most one record and changes the final directory only together with it. The history-level "
                     "'exactly once' statement is evaluated as an oracle on every trace (no (name,hash) logged twice); it is refuted by the faithful model when a "
